@@ -819,8 +819,8 @@ impl FunctionLocation {
     ensures
         /*@ok*/ fl_applies(*function, *self) ==> r is Ok,
         /*@err*/ !fl_applies(*function, *self) ==> r == Err::<RefFunctionLocation<'f>, Error>(Error::FunctionLocationApplication),
-        /*@loc*/ r matches Ok(x) ==> loc_of(x) == fl_loc(*self) && rfl_points_in(*function, x),
-        /*@valid*/ r matches Ok(x) ==> (loc_valid(*function, fl_loc(*self)) ==> rfl_in(*function, x)),
+        /*@loc*/ r matches Ok(x) ==> ((*function).function_wf() ==> loc_of(x) == fl_loc(*self) && rfl_points_in(*function, x)),
+        /*@valid*/ r matches Ok(x) ==> ((*function).function_wf() && loc_valid(*function, fl_loc(*self)) ==> rfl_in(*function, x)),
         /*@roundtrip*/ (*function).function_wf() ==> forall|l: RefFunctionLocation| #![trigger rfl_in(*function, l)]
             rfl_in(*function, l) && loc_of(l) == fl_loc(*self) ==> r == Ok::<RefFunctionLocation<'f>, Error>(l),
 //@ end
